@@ -1,2 +1,30 @@
-(* C02 — placeholder: theorems are added as the proofs land. *)
-From EDP Require Import Base.Bytes Term.Term Codec.Decode.
+(* C02 — decoding untrusted bytes always returns.
+   The model decoder is a total function (Coq accepts it), so "returns a term or an error value" is by construction
+   once fuel exhaustion — the one artificial outcome — is shown unreachable.  Process-level effects (stack depth,
+   allocator requests) are measured on the implementation by the harness; see DESIGN.md. *)
+From EDP Require Import Base.Bytes Term.Term Gen.Tags Gen.DecoderArms Codec.Decode Codec.DecodeFacts.
+
+(* for every byte string, every oracle and either arm table, decode yields a term, a decode error or trailing data:
+   never the model's out-of-fuel value *)
+Theorem C02_decode_total : forall cfg data, decode cfg data <> DErr KFuel.
+Proof. exact decode_nofuel. Qed.
+
+(* the parser behind decode_with_trailing / decode_raw_term / decode_with_cache *)
+Theorem C02_parse_total : forall cfg f bs, (length bs < f)%nat -> parse cfg f bs <> PErr KFuel.
+Proof. exact parse_nofuel. Qed.
+
+(* every successful parse consumes at least the tag byte: nested parsers make progress, so sequence loops whose
+   count comes from the wire are bounded by the input length *)
+Theorem C02_progress : forall cfg f bs t r, parse cfg f bs = POk t r -> (length r < length bs)%nat.
+Proof. intros cfg f bs t r. exact (parse_consumes cfg f bs t r). Qed.
+
+Theorem C02_sequence_bounded : forall cfg f k n bs, (length bs < k)%nat ->
+  (forall x, (length x <= length bs)%nat -> parse cfg f x <> PErr KFuel) ->
+  seq_with (parse cfg f) k n bs <> SErr KFuel.
+Proof. intros cfg f k n bs. exact (seq_with_nofuel (parse cfg f) k (parse_consumes cfg f) n bs). Qed.
+
+(* more fuel never changes an answer *)
+Theorem C02_fuel_irrelevant : forall cfg f g bs t r, (f <= g)%nat -> parse cfg f bs = POk t r -> parse cfg g bs = POk t r.
+Proof. intros cfg f g bs t r H. exact (parse_mono cfg f g H bs t r). Qed.
+
+Check C02_decode_total : forall cfg data, decode cfg data <> DErr KFuel.
